@@ -70,6 +70,9 @@ func runC12(t *testing.T, seed uint64, m *Mask) *Report {
 		if proto == "http" && op.Codec == 't' {
 			op.Codec = 'j'
 		}
+		if proto == "http" || proto == "ws-json" || proto == "ws-pb" {
+			op.AcceptCodec = 0 // the http mapping has no content type for every codec; not the subject here
+		}
 		if fault == "none" && op.Kind != "push" && r.Chance(0.12) {
 			// the handler's result cannot be encoded: the first reply write fails and the framework answers
 			// with a fall-back error reply, which is a reply to this call like any other
